@@ -231,6 +231,9 @@ var quickDeep = []string{"paren-1000", "paren-9999", "paren-10001", "unary-1000"
 	"list-1000", "list-10001", "struct-1000", "struct-10001", "binchain-1000", "binchain-9999", "selchain-1000",
 	"interp-1000", "interp-10001", "openparen-9999", "not-9999", "cmt-9999", "structcompr-1000"}
 
+// genMode: "safe" (default) or "wild" (adds declaration-level comprehensions to the random programs).
+var genMode = "safe"
+
 func buildInputs(repo, tier string, seed uint64, bigMode string) ([]Input, map[string]any) {
 	cfg := tiers[tier]
 	var ins []Input
@@ -294,11 +297,13 @@ func buildInputs(repo, tier string, seed uint64, bigMode string) ([]Input, map[s
 	for i := 0; i < cfg.nRich; i++ {
 		fs := featSets[i%len(featSets)]
 		g := &rich{r: rr.Fork(), feat: fs.f, budget: 30 + rr.Intn(100), chaos: chaosOf(rr)}
+		g.feat.declCompr = g.feat.compr && genMode == "wild"
 		add(fs.kind, []byte(g.file(2+rr.Intn(3), 2+rr.Intn(5))), "")
 	}
 	rb := root.Fork()
 	for i := 0; i < cfg.nBuiltin; i++ {
 		g := &rich{r: rb.Fork(), feat: richFeat{refs: true, lists: true, builtins: true, disj: i%3 == 0, compr: i%4 == 0}, budget: 25 + rb.Intn(60), chaos: chaosOf(rb)}
+		g.feat.declCompr = g.feat.compr && genMode == "wild"
 		add("gen-builtin", []byte(g.file(2+rb.Intn(2), 2+rb.Intn(4))), "")
 	}
 	ry := root.Fork()
@@ -376,6 +381,7 @@ func buildInputs(repo, tier string, seed uint64, bigMode string) ([]Input, map[s
 		"corpus_size_cap": cfg.maxCorpus, "corpus_unmutated_used": nCorpus,
 		"duplicates_dropped": dups,
 		"big_excluded":       bigExcluded, "deep_excluded": deepExcluded,
+		"gen_mode": genMode,
 	}
 	return out, dist
 }
